@@ -1,5 +1,5 @@
 (* Num/Proofs.v — lemmas about the F2 number model. *)
-From MV Require Import Base.Bytes Num.Model Num.Spec.
+From MV Require Import Base.MvBytes Num.NumModel Num.NumSpec.
 
 (* ---------- digits ---------- *)
 Lemma is_digit_not c : is_digit c = true -> c <> cdot /\ c <> ce /\ c <> cE /\ c <> cplus /\ c <> cminus.
